@@ -185,6 +185,8 @@ def rand_universe(rng, o=None, uid=0):
             for j in range(rng.randint(0, 2)):
                 fields.append(['a%d' % j, {'attr': rand_prim(rng, o, allow_occ=False)}])
             fields.append(['data', {'xmldata': rand_prim(rng, o, allow_occ=False)}])
+            if getattr(o, 'xmldata_required', True) and rng.random() < .3:
+                fields[-1][1]['xmldata']['min_occurs'] = 1      # the text content is mandatory
         else:
             for j in range(nf):
                 fn = 'f%d_%d' % (i, j)
@@ -709,6 +711,8 @@ def gen_value(rng, ir, t, depth=3, top=False, alphabet='xml', subclass_ok=False)
     nillable = t.get('nillable', True)
     if 'xmldata' in t and t['xmldata'].get('prim') not in ('Unicode',):
         top = True      # the text content of a simpleContent type cannot be absent unless it is a string
+    if 'xmldata' in t and t['xmldata'].get('min_occurs', 0) >= 1:
+        top = True      # mandatory text content
     if 'xmldata' in t and t['xmldata'].get('prim') == 'Unicode':
         f_ = t['xmldata'].get('facets') or {}
         if ('values' in f_ and '' not in f_['values']) or f_.get('min_len', 0) > 0 or ('pattern' in f_ and re.fullmatch(f_['pattern'], '') is None):
